@@ -59,7 +59,7 @@ def main():
     with open(os.path.join(VERIF, 'vk', 'registered.txt')) as f:
         registered = set(f.read().split())
     names = [n for n in sorted(os.listdir(os.path.join(VERIF, 'seeded'))) if os.path.isfile(os.path.join(VERIF, 'seeded', n, 'meta.json'))]
-    todo = [n for n in names if only in n]
+    todo = [n for n in names if any(o in n for o in only.split(','))]   # comma-separated substrings
     slots = list(range(jobs))
     def run(n):
         slot = slots.pop()
